@@ -3,63 +3,65 @@ from common import LEAN_TB
 CFG = {'lean_modules': ['ObiVerif.Props.C15'],
  'gen': True,
  'thorough_seeds': 8,
- 'rule': 'cases = cw A B (shared 4-mers of two sequences); fc1|fc2 Q refs (obitag / obitag2 FindClosests); ix s refs taxids taxonomy '
-         '(obirefidx.IndexSequence of reference s); id1|id2 Q refs taxids taxonomy (obitag.Identify; obitag2.FindClosests + BestConsensus on a data base '
-         'indexed by IndexSequence); qg A n / qgn A k (q-gram slack of A against every word of length <= n, resp. every word at 1 or 2 single-base edits). '
-         'Corpus: the failing instances found on the unrepaired code (tied shorter reference pruned; scan of a lineage level stopped by a long candidate; '
-         '1001 far candidates before a closer one, 1003 tied references), empty data base, identical references, three ties at distance 1, sequences shorter '
-         'than 4 bases, identity exactly 0.5, distance = length of the reference. Random: a base sequence of 1..100 bases (alphabet acgt or ac), 1..41 '
-         'references = variants of it or of one another (copy, 0..5 substitutions spread 4 apart - fewest shared 4-mers per difference -, bases '
-         'appended/removed at an end, random edits, prefix + long unrelated tail, both, unrelated), query = variant of the base or of a reference; '
-         'taxonomy = 1..12 nodes rooted at taxid 1 (uniform, chain, star, deep), reference taxa at random depth; 1500 (quick) / 5000 per seed (thorough). '
-         'Exhaustive: qg for every A of length <= 3 against every B of length <= 5 (quick); thorough, partitioned over the 8 seeds: every A of length '
-         '<= 5 against every B of length <= 6 (plus samples of length 6 and 7; short words only test the bound at distance 0: the neighbourhood '
-         'cases qgn on 8..28 bases are the ones where it is tight), and every query over {a,c} of length 8..10 against one reference set over {a,c}. '
-         'non-trivial = distinct well-formed case with a non-empty data base',
- 'technique': 'Lean 4 theorems on transcriptions of the two pruned search loops over abstract candidate data (lengths, shared 4-mer counts, unbounded '
-              'LCS answers), for any number of references and any sorted candidate order; the taxonomy part on top of the C14 lemmas; differential '
-              'correspondence of the model (shared 4-mer counts recomputed from the sequences, LCS answers and candidate order taken from the real '
-              'kernel / sort) with the real obitag, obitag2, obirefidx code; brute-force oracle (all-pairs unbounded FastLCSScore, naive LCA on the '
-              'parent table) on the real code; the hypotheses of the theorems (q-gram bound, exactness of the bounded kernels) are checked on every pair met',
+ 'rule': 'cases = cw A B (shared 4-mers of two sequences); fc1|fc2 Q refs (obitag / obitag2 FindClosests); ix s refs taxids taxonomy (obirefidx.IndexSequence '
+         'of reference s); id1|id2 Q refs taxids taxonomy (obitag.Identify; obitag2.FindClosests + BestConsensus on a data base indexed by IndexSequence); qg '
+         'A n / qgn A k (q-gram slack of A against every word of length <= n, resp. every word at 1 or 2 single-base edits). Corpus: the failing instances '
+         'found on the unrepaired code (tied shorter reference pruned; scan of a lineage level stopped by a long candidate; 1001 far candidates before a '
+         'closer one, 1003 tied references), empty data base, identical references, three ties at distance 1, sequences shorter than 4 bases, identity exactly '
+         '0.5, distance = length of the reference. Random: a base sequence of 1..100 bases (alphabet acgt or ac), 1..41 references = variants of it or of one '
+         'another (copy, 0..5 substitutions spread 4 apart - fewest shared 4-mers per difference -, bases appended/removed at an end, random edits, prefix + '
+         'long unrelated tail, both, unrelated), query = variant of the base or of a reference; taxonomy = 1..12 nodes rooted at taxid 1 (uniform, chain, '
+         'star, deep), reference taxa at random depth; 1500 (quick) / 5000 per seed (thorough). Exhaustive: qg for every A of length <= 3 against every B of '
+         'length <= 5 (quick); thorough, partitioned over the 8 seeds: every A of length <= 5 against every B of length <= 6 (plus samples of length 6 and 7; '
+         'short words only test the bound at distance 0: the neighbourhood cases qgn on 8..28 bases are the ones where it is tight), and every query over '
+         '{a,c} of length 8..10 against one reference set over {a,c}. non-trivial = distinct well-formed case with a non-empty data base',
+ 'technique': 'Lean 4 theorems on transcriptions of the two pruned search loops over abstract candidate data (lengths, shared 4-mer counts, unbounded LCS '
+              'answers), for any number of references and any sorted candidate order; the taxonomy part on top of the C14 lemmas; differential correspondence '
+              'of the model (shared 4-mer counts recomputed from the sequences, LCS answers and candidate order taken from the real kernel / sort) with the '
+              'real obitag, obitag2, obirefidx code; brute-force oracle (all-pairs unbounded FastLCSScore, naive LCA on the parent table) on the real code; '
+              'the hypotheses of the theorems (q-gram bound, exactness of the bounded kernels) are checked on every pair met',
  'level_text': 'Proved for all inputs on the Lean model of the REPAIRED loops: findClosests_lossless (any data base size, lengths, counts, distances; '
-               'candidates scanned by non-increasing shared 4-mers and satisfying the q-gram bound: FindClosests of obitag and obitag2 returns the least '
-               'LCS distance over ALL references and exactly the references at that distance, all ties, each once, = bruteClosests; bruteClosests_spec says '
-               'what that is), findClosests_empty (empty data base: index-out-of-range panic), index_is_lca (well-formed taxonomy, same hypotheses on '
-               'the candidates of the indexed reference, which is one of the references: IndexSequence succeeds and every recorded distance d is mapped to '
-               'the taxon whose ancestors are exactly the common ancestors of the taxa of ALL references within d), index_lookup_is_lca (no distance is missing: for EVERY observed distance D below the length of the indexed '
-               'sequence the entry found by the downward scan of Identify - largest recorded distance <= D - is the LCA of the taxa of all references '
-               'within D), assigned_is_ancestor (whatever the '
-               'candidate data: the taxon assigned by Identify / BestConsensus is an ancestor-or-self of the taxon of every reference returned by the '
-               'search; identity < 0.5 gives the root) and assigned_is_ancestor_of_every_best (with findClosests_lossless: of every reference at minimal '
-               'distance in the whole data base). Counterexample theorems for the unrepaired rules, by evaluation of the loops on the abstract data of the '
-               'failing corpus cases: findClosests_unrepaired_loses_tie (D14), indexSequence_unrepaired_skips (D15). The q-gram lemma itself (qgram4: '
-               'distance <= d implies at least max(|x|,|y|)-3-4d shared 4-mers) is NOT proved: it is the explicit hypothesis QGramBound of the two pruning '
-               'theorems, validated by the harness on every pair of sequences compared (signature hyp.qgram) and on whole neighbourhoods (qg/qgn, where the '
-               'model recomputes the slack with its own textbook LCS matrix).',
+               'candidates scanned by non-increasing shared 4-mers and satisfying the q-gram bound: FindClosests of obitag and obitag2 returns the least LCS '
+               'distance over ALL references and exactly the references at that distance, all ties, each once, = bruteClosests; bruteClosests_spec says what '
+               'that is), findClosests_empty (empty data base: index-out-of-range panic), index_is_lca (well-formed taxonomy, same hypotheses on the '
+               'candidates of the indexed reference, which is one of the references: IndexSequence succeeds and every recorded distance d is mapped to the '
+               'taxon whose ancestors are exactly the common ancestors of the taxa of ALL references within d), index_lookup_is_lca (no distance is missing: '
+               'for EVERY observed distance D below the length of the indexed sequence the entry found by the downward scan of Identify - largest recorded '
+               'distance <= D - is the LCA of the taxa of all references within D), assigned_is_ancestor (whatever the candidate data: the taxon assigned by '
+               'Identify / BestConsensus is an ancestor-or-self of the taxon of every reference returned by the search; identity < 0.5 gives the root) and '
+               'assigned_is_ancestor_of_every_best (with findClosests_lossless: of every reference at minimal distance in the whole data base). Counterexample '
+               'theorems for the unrepaired rules, by evaluation of the loops on the abstract data of the failing corpus cases: '
+               'findClosests_unrepaired_loses_tie (D14), indexSequence_unrepaired_skips (D15). The q-gram lemma is PROVED (deepening round): qgram4 / '
+               'qgram4_acgt / qgram4_acgt_ali (for sequences over a,c,g,t of at most 65538 letters: an alignment with s matches and l columns leaves at least '
+               'l-3-4(l-s) shared 4-mers, by induction on the alignment), hence findClosests_lossless_acgt, index_is_lca_acgt, index_lookup_is_lca_acgt, '
+               'assigned_is_ancestor_of_every_best_acgt hold WITHOUT the QGramBound hypothesis; slack_nonneg makes the harness qg/qgn check a theorem; '
+               'qgram4_false_beyond_uint16: beyond 65538 letters the uint16 counters of Count4Mer wrap and the bound is false (boundary defect shared with C19 '
+               'finding C19-count4-uint16).',
  'level_note': 'Trusted: Lean kernel; the transcription Model/Tag.lean; Model/Kmer.lean (Count4Mer, C19) and Model/Tax.lean + Lemmas/Tax.lean (C14). The LCS '
                'kernels are not modelled here (C09): the loops are read with FastLCSScore(.., e) = the unbounded answer when alilength-lcs <= e and -1 '
                'otherwise, D1Or0 = 0/1 exactly when the unbounded distance is 0/1. The real banded kernel also answers some pairs ABOVE the bound (always with '
-               'alilength-lcs > e; ~60 answers per case in the quick run): both loops ignore such an answer exactly like -1, and the harness checks on every pair, '
-               'for the bounds 2..5 and d-2..d+3, that no answer at or below the bound is ever wrong (hyp.bounded-lcs, hyp.d1or0). The candidate order '
+               'alilength-lcs > e; ~60 answers per case in the quick run): both loops ignore such an answer exactly like -1, and the harness checks on every '
+               'pair, for the bounds 2..5 and d-2..d+3, that no answer at or below the bound is ever wrong (hyp.bounded-lcs, hyp.d1or0). The candidate order '
                '(unstable sort.Sort) is a parameter; the driver rejects (bad-data) an order that is not a permutation sorted by non-increasing count. Floats: '
                'bestId is kept as the pair (lcs, alilength); identity >= 0.5 is read 2*lcs >= alilength. Tied by correspondence only: bestId / bestmatch, the '
                'fallback branches of the selection loop of Identify (no recorded distance <= the observed one: upward scan to 1000, else the Go loop spins = '
-               'outcome hang of the model; never reached on an index holding the distance 0), the text format taxid@name@rank of the entries, Common4Mer. Not covered: the '
-               'second (family) stage and the exact-match table of obitag2.Identify, the cluster construction of obireffamidx, geometric indexing, the lazy '
-               'construction of indices shared between workers (concurrency), entries for distances >= the length of the indexed sequence (never recorded '
-               'by the code: d < old with old = lseq).',
+               'outcome hang of the model; never reached on an index holding the distance 0), the text format taxid@name@rank of the entries, Common4Mer. Not '
+               'covered: the second (family) stage and the exact-match table of obitag2.Identify, the cluster construction of obireffamidx, geometric '
+               'indexing, the lazy construction of indices shared between workers (concurrency), entries for distances >= the length of the indexed sequence '
+               '(never recorded by the code: d < old with old = lseq).',
  'trusted_base': LEAN_TB + ['extract/ (__single_base_code__ table of Encode4mer)',
-                            'obialign.FastLCSScore without bound as the definition of the LCS distance (C09 proves it is the (LCS, shortest alignment) pair)',
-                            'naive oracles of the harness (ancestor sets on the parent table, multiset intersection of 4-letter windows)',
-                            'IEEE-754 double division of integers below 2^26 is injective on reduced fractions (bestId comparisons read on integer pairs)'],
+ 'obialign.FastLCSScore without bound as the definition of the LCS distance (C09 proves it is the (LCS, shortest alignment) pair)',
+ 'naive oracles of the harness (ancestor sets on the parent table, multiset intersection of 4-letter windows)',
+ 'IEEE-754 double division of integers below 2^26 is injective on reduced fractions (bestId comparisons read on integer pairs)'],
  'modelled': 'pkg/obikmer counting.go (Common4Mer; Count4Mer/Encode4mer from C19), pkg/obitools/obitag/obitag.go (FindClosests, Identify), '
-             'pkg/obitools/obitag2/obitag.go (FindClosests, BestConsensus), pkg/obitools/obirefidx/obirefidx.go (IndexSequence; famlilyindexing.go calls '
-             'the same function), pkg/obitax/lca.go (TaxNode.LCA, from C14) - as repaired by notes/patches/C15-findclosests-wordmin-best-length, '
+             'pkg/obitools/obitag2/obitag.go (FindClosests, BestConsensus), pkg/obitools/obirefidx/obirefidx.go (IndexSequence; famlilyindexing.go calls the '
+             'same function), pkg/obitax/lca.go (TaxNode.LCA, from C14) - as repaired by notes/patches/C15-findclosests-wordmin-best-length, '
              'C15-obitag2-candidate-cap, C15-indexsequence-break-threshold',
  'assumptions': ['QGramBound: a candidate within d differences of the scanned sequence shares at least max(lengths)-3-4d 4-mers with it (hypothesis of '
                  'findClosests_lossless and index_is_lca; true for words over a c g t by the q-gram lemma, not proved here; FALSE with IUPAC ambiguity codes, '
                  'which Encode4mer counts as a while FastLCSScore matches them: sequences are assumed to be over a c g t)',
-                 'the bounded kernels never return a wrong answer at or below their bound (C09: fastLCS_sound + correspondence); answers above the bound are harmless',
+                 'the bounded kernels never return a wrong answer at or below their bound (C09: fastLCS_sound + correspondence); answers above the bound are '
+                 'harmless',
                  'the candidate list is a permutation of the references sorted by non-increasing shared 4-mer count (what obiutils.IntOrder + Reverse produce)',
                  'well-formed taxonomy rooted at taxid 1 containing the taxon of every reference (obitag discards the others when loading)',
                  'the indexed sequence is one of the references (distance 0 to itself); lengths below 2^26']}
